@@ -5,8 +5,13 @@ and restores the file.  usage: tools/mutants.py [prop|id ...]"""
 import json, subprocess, sys, os, shutil
 V = os.path.dirname(os.path.dirname(os.path.abspath(__file__)))
 muts = json.load(open(os.path.join(V, 'selftest/mutants.json')))
-sel = sys.argv[1:]
+args = sys.argv[1:]
+jsonout = None
+if args and args[0] == '--json':
+    jsonout = args[1]; args = args[2:]
+sel = args
 bad = 0
+results = []
 for m in muts:
     if sel and m['prop'] not in sel and m['id'] not in sel:
         continue
@@ -15,6 +20,7 @@ for m in muts:
     if src.count(m['old']) != 1:
         print("%-32s PATTERN matches %d times (corpus needs updating)" % (m['id'], src.count(m['old'])))
         bad += 1
+        results.append({"id": m['id'], "result": "stale"})
         continue
     shutil.copy(path, path + '.mutbak')
     try:
@@ -24,9 +30,12 @@ for m in muts:
         failing = [l.split()[3] if l.startswith('failed') and 'structural' not in l else (l.split()[2] if not l.startswith('translate') else 'translation') for l in out.splitlines() if l.startswith(('failed', 'unknown  ', 'unknown ', 'translate:')) and 'unknown call' not in l]
         detected = r.returncode != 0 and ('not discharged' in out or 'translate:' in out or 'load error' in out)
         print("%-32s %s %s" % (m['id'], 'DETECTED' if detected else 'MISSED  ', ' '.join(failing[:2])[:110]))
+        results.append({"id": m['id'], "function": m['func'], "result": "detected" if detected else "missed", "failed_obligations": failing[:3], "note": m.get('note', '')})
         if not detected:
             bad += 1
     finally:
         shutil.move(path + '.mutbak', path)
 print("mutants missed or stale:", bad)
+if jsonout:
+    json.dump({"run": len(results), "detected": sum(1 for r in results if r['result'] == 'detected'), "results": results}, open(jsonout, 'w'), indent=1)
 sys.exit(1 if bad else 0)
